@@ -261,6 +261,13 @@ class Inliner:
             s.finalbody = self.block(s.finalbody, ctx) if s.finalbody else []
             return [s]
         if isinstance(s, ast.Match):
+            low = self._lower_match(s)
+            if low is not None:
+                self.stats['match_lowered'] = self.stats.get('match_lowered', 0) + 1
+                out = []
+                for st_ in low:
+                    out.extend(self.stmt(st_, ctx))
+                return out
             s.subject = self.expr(s.subject, ctx, pre, s)
             for c in s.cases:
                 c.body = self.block(c.body, ctx)
@@ -365,6 +372,80 @@ class Inliner:
             if res is not None:
                 return res[1]
         return e
+
+    # ------------------------------------------------------------------ match statements
+    def _lower_match(self, s):
+        """`match x: case 'L': .. case str(): .. case A | B: .. case _:` -> the equivalent if / elif chain (only for the
+        pattern kinds whose meaning is exactly a comparison: values, None/True/False, classes without sub-patterns,
+        alternatives of those, a final wildcard or capture, guards)."""
+        pre = []
+        subj = s.subject
+        if not _simple(subj):
+            k = next(self.counter)
+            name = f"_inl{k}_subject"
+            pre.append(ast.copy_location(ast.Assign([ast.Name(name, ast.Store())], subj), s))
+            subj = ast.Name(name, ast.Load())
+
+        def test_of(p):
+            if isinstance(p, ast.MatchValue):
+                return ast.Compare(copy.deepcopy(subj), [ast.Eq()], [p.value])
+            if isinstance(p, ast.MatchSingleton):
+                return ast.Compare(copy.deepcopy(subj), [ast.Is()], [ast.Constant(p.value)])
+            if isinstance(p, ast.MatchClass) and not p.patterns and not p.kwd_patterns:
+                return ast.Call(ast.Name('isinstance', ast.Load()), [copy.deepcopy(subj), p.cls], [])
+            if isinstance(p, ast.MatchOr):
+                parts = [test_of(x) for x in p.patterns]
+                if any(x is None for x in parts):
+                    return None
+                return ast.BoolOp(ast.Or(), parts)
+            return None
+        chain, tail = [], None
+        for i, c in enumerate(s.cases):
+            p = c.pattern
+            if isinstance(p, ast.MatchAs) and p.pattern is None:
+                # wildcard `_` or a capture of the whole subject
+                body = list(c.body)
+                if p.name is not None:
+                    body.insert(0, ast.copy_location(ast.Assign([ast.Name(p.name, ast.Store())], copy.deepcopy(subj)), c.body[0]))
+                if c.guard is None:
+                    if i != len(s.cases) - 1:
+                        return None
+                    tail = body
+                    break
+                if p.name is not None:
+                    return None          # a guard that reads the capture: keep the match statement
+                chain.append((c.guard, body))
+                continue
+            t = test_of(p)
+            if t is None:
+                return None
+            if c.guard is not None:
+                t = ast.BoolOp(ast.And(), [t, c.guard])
+            chain.append((t, list(c.body)))
+        node = tail or []
+        for t, body in reversed(chain):
+            node = [ast.If(t, body, node)]
+        for n in node:
+            for x in ast.walk(n):
+                if isinstance(x, (ast.stmt, ast.expr)) and not hasattr(x, 'lineno'):
+                    ast.copy_location(x, s)
+            if not hasattr(n, 'lineno'):
+                ast.copy_location(n, s)
+        for n in node:
+            if isinstance(n, ast.If) and chain:
+                self._relocate_chain(n, s)
+        return pre + node
+
+    @staticmethod
+    def _relocate_chain(n, s):
+        # each synthesised `if` takes the line of the first statement of its case (diagnostics point into the case)
+        while isinstance(n, ast.If):
+            if n.body and hasattr(n.body[0], 'lineno'):
+                n.lineno = max(s.lineno, n.body[0].lineno - 1)
+                for x in ast.walk(n.test):
+                    if hasattr(x, 'lineno'):
+                        x.lineno = n.lineno
+            n = n.orelse[0] if len(n.orelse) == 1 and isinstance(n.orelse[0], ast.If) else None
 
     # ------------------------------------------------------------------ method values
     def _sink_method_values(self, stmts, ctx):
